@@ -8,69 +8,81 @@ import (
 	"github.com/klev-dev/klevdb/verifsim/sim"
 )
 
-type Int32 struct { v stdatomic.Int32 }
+type Int32 struct{ v stdatomic.Int32 }
 
-func (x *Int32) Load() int32                 { sim.Yield(); return x.v.Load() }
-func (x *Int32) Store(val int32)             { sim.Yield(); x.v.Store(val) }
-func (x *Int32) Swap(new int32) int32        { sim.Yield(); return x.v.Swap(new) }
+func (x *Int32) Load() int32                        { sim.Yield(); return x.v.Load() }
+func (x *Int32) Store(val int32)                    { sim.Yield(); x.v.Store(val) }
+func (x *Int32) Swap(new int32) int32               { sim.Yield(); return x.v.Swap(new) }
 func (x *Int32) CompareAndSwap(old, new int32) bool { sim.Yield(); return x.v.CompareAndSwap(old, new) }
-func (x *Int32) Add(delta int32) int32       { sim.Yield(); return x.v.Add(delta) }
-func (x *Int32) And(mask int32) int32        { sim.Yield(); return x.v.And(mask) }
-func (x *Int32) Or(mask int32) int32         { sim.Yield(); return x.v.Or(mask) }
+func (x *Int32) Add(delta int32) int32              { sim.Yield(); return x.v.Add(delta) }
+func (x *Int32) And(mask int32) int32               { sim.Yield(); return x.v.And(mask) }
+func (x *Int32) Or(mask int32) int32                { sim.Yield(); return x.v.Or(mask) }
 
-type Int64 struct { v stdatomic.Int64 }
+type Int64 struct{ v stdatomic.Int64 }
 
-func (x *Int64) Load() int64                 { sim.Yield(); return x.v.Load() }
-func (x *Int64) Store(val int64)             { sim.Yield(); x.v.Store(val) }
-func (x *Int64) Swap(new int64) int64        { sim.Yield(); return x.v.Swap(new) }
+func (x *Int64) Load() int64                        { sim.Yield(); return x.v.Load() }
+func (x *Int64) Store(val int64)                    { sim.Yield(); x.v.Store(val) }
+func (x *Int64) Swap(new int64) int64               { sim.Yield(); return x.v.Swap(new) }
 func (x *Int64) CompareAndSwap(old, new int64) bool { sim.Yield(); return x.v.CompareAndSwap(old, new) }
-func (x *Int64) Add(delta int64) int64       { sim.Yield(); return x.v.Add(delta) }
-func (x *Int64) And(mask int64) int64        { sim.Yield(); return x.v.And(mask) }
-func (x *Int64) Or(mask int64) int64         { sim.Yield(); return x.v.Or(mask) }
+func (x *Int64) Add(delta int64) int64              { sim.Yield(); return x.v.Add(delta) }
+func (x *Int64) And(mask int64) int64               { sim.Yield(); return x.v.And(mask) }
+func (x *Int64) Or(mask int64) int64                { sim.Yield(); return x.v.Or(mask) }
 
-type Uint32 struct { v stdatomic.Uint32 }
+type Uint32 struct{ v stdatomic.Uint32 }
 
-func (x *Uint32) Load() uint32                 { sim.Yield(); return x.v.Load() }
-func (x *Uint32) Store(val uint32)             { sim.Yield(); x.v.Store(val) }
-func (x *Uint32) Swap(new uint32) uint32        { sim.Yield(); return x.v.Swap(new) }
-func (x *Uint32) CompareAndSwap(old, new uint32) bool { sim.Yield(); return x.v.CompareAndSwap(old, new) }
-func (x *Uint32) Add(delta uint32) uint32       { sim.Yield(); return x.v.Add(delta) }
-func (x *Uint32) And(mask uint32) uint32        { sim.Yield(); return x.v.And(mask) }
-func (x *Uint32) Or(mask uint32) uint32         { sim.Yield(); return x.v.Or(mask) }
+func (x *Uint32) Load() uint32           { sim.Yield(); return x.v.Load() }
+func (x *Uint32) Store(val uint32)       { sim.Yield(); x.v.Store(val) }
+func (x *Uint32) Swap(new uint32) uint32 { sim.Yield(); return x.v.Swap(new) }
+func (x *Uint32) CompareAndSwap(old, new uint32) bool {
+	sim.Yield()
+	return x.v.CompareAndSwap(old, new)
+}
+func (x *Uint32) Add(delta uint32) uint32 { sim.Yield(); return x.v.Add(delta) }
+func (x *Uint32) And(mask uint32) uint32  { sim.Yield(); return x.v.And(mask) }
+func (x *Uint32) Or(mask uint32) uint32   { sim.Yield(); return x.v.Or(mask) }
 
-type Uint64 struct { v stdatomic.Uint64 }
+type Uint64 struct{ v stdatomic.Uint64 }
 
-func (x *Uint64) Load() uint64                 { sim.Yield(); return x.v.Load() }
-func (x *Uint64) Store(val uint64)             { sim.Yield(); x.v.Store(val) }
-func (x *Uint64) Swap(new uint64) uint64        { sim.Yield(); return x.v.Swap(new) }
-func (x *Uint64) CompareAndSwap(old, new uint64) bool { sim.Yield(); return x.v.CompareAndSwap(old, new) }
-func (x *Uint64) Add(delta uint64) uint64       { sim.Yield(); return x.v.Add(delta) }
-func (x *Uint64) And(mask uint64) uint64        { sim.Yield(); return x.v.And(mask) }
-func (x *Uint64) Or(mask uint64) uint64         { sim.Yield(); return x.v.Or(mask) }
+func (x *Uint64) Load() uint64           { sim.Yield(); return x.v.Load() }
+func (x *Uint64) Store(val uint64)       { sim.Yield(); x.v.Store(val) }
+func (x *Uint64) Swap(new uint64) uint64 { sim.Yield(); return x.v.Swap(new) }
+func (x *Uint64) CompareAndSwap(old, new uint64) bool {
+	sim.Yield()
+	return x.v.CompareAndSwap(old, new)
+}
+func (x *Uint64) Add(delta uint64) uint64 { sim.Yield(); return x.v.Add(delta) }
+func (x *Uint64) And(mask uint64) uint64  { sim.Yield(); return x.v.And(mask) }
+func (x *Uint64) Or(mask uint64) uint64   { sim.Yield(); return x.v.Or(mask) }
 
-type Uintptr struct { v stdatomic.Uintptr }
+type Uintptr struct{ v stdatomic.Uintptr }
 
-func (x *Uintptr) Load() uintptr                 { sim.Yield(); return x.v.Load() }
-func (x *Uintptr) Store(val uintptr)             { sim.Yield(); x.v.Store(val) }
-func (x *Uintptr) Swap(new uintptr) uintptr        { sim.Yield(); return x.v.Swap(new) }
-func (x *Uintptr) CompareAndSwap(old, new uintptr) bool { sim.Yield(); return x.v.CompareAndSwap(old, new) }
-func (x *Uintptr) Add(delta uintptr) uintptr       { sim.Yield(); return x.v.Add(delta) }
-func (x *Uintptr) And(mask uintptr) uintptr        { sim.Yield(); return x.v.And(mask) }
-func (x *Uintptr) Or(mask uintptr) uintptr         { sim.Yield(); return x.v.Or(mask) }
+func (x *Uintptr) Load() uintptr            { sim.Yield(); return x.v.Load() }
+func (x *Uintptr) Store(val uintptr)        { sim.Yield(); x.v.Store(val) }
+func (x *Uintptr) Swap(new uintptr) uintptr { sim.Yield(); return x.v.Swap(new) }
+func (x *Uintptr) CompareAndSwap(old, new uintptr) bool {
+	sim.Yield()
+	return x.v.CompareAndSwap(old, new)
+}
+func (x *Uintptr) Add(delta uintptr) uintptr { sim.Yield(); return x.v.Add(delta) }
+func (x *Uintptr) And(mask uintptr) uintptr  { sim.Yield(); return x.v.And(mask) }
+func (x *Uintptr) Or(mask uintptr) uintptr   { sim.Yield(); return x.v.Or(mask) }
 
 type Bool struct{ v stdatomic.Bool }
 
-func (x *Bool) Load() bool                       { sim.Yield(); return x.v.Load() }
-func (x *Bool) Store(val bool)                   { sim.Yield(); x.v.Store(val) }
-func (x *Bool) Swap(new bool) bool               { sim.Yield(); return x.v.Swap(new) }
+func (x *Bool) Load() bool                        { sim.Yield(); return x.v.Load() }
+func (x *Bool) Store(val bool)                    { sim.Yield(); x.v.Store(val) }
+func (x *Bool) Swap(new bool) bool                { sim.Yield(); return x.v.Swap(new) }
 func (x *Bool) CompareAndSwap(old, new bool) bool { sim.Yield(); return x.v.CompareAndSwap(old, new) }
 
 type Pointer[T any] struct{ v stdatomic.Pointer[T] }
 
-func (x *Pointer[T]) Load() *T                       { sim.Yield(); return x.v.Load() }
-func (x *Pointer[T]) Store(val *T)                   { sim.Yield(); x.v.Store(val) }
-func (x *Pointer[T]) Swap(new *T) *T                 { sim.Yield(); return x.v.Swap(new) }
-func (x *Pointer[T]) CompareAndSwap(old, new *T) bool { sim.Yield(); return x.v.CompareAndSwap(old, new) }
+func (x *Pointer[T]) Load() *T       { sim.Yield(); return x.v.Load() }
+func (x *Pointer[T]) Store(val *T)   { sim.Yield(); x.v.Store(val) }
+func (x *Pointer[T]) Swap(new *T) *T { sim.Yield(); return x.v.Swap(new) }
+func (x *Pointer[T]) CompareAndSwap(old, new *T) bool {
+	sim.Yield()
+	return x.v.CompareAndSwap(old, new)
+}
 
 type Value struct{ v stdatomic.Value }
 
